@@ -1416,8 +1416,17 @@ func checkSetstatApplication(c *Ctx, withTargetsAndOrder bool) {
 				continue
 			}
 			cmp, ok := iff.Cond.(*ssa.BinOp)
-			if !ok || cmp.Op != token.NEQ {
+			if !ok || (cmp.Op != token.NEQ && cmp.Op != token.EQL) {
 				continue
+			}
+			if z, isZ := constInt(cmp.Y); !isZ || z != 0 {
+				continue
+			}
+			// the side on which the flag is set: the true edge of `!= 0`, the false edge of `== 0` (an early exit when
+			// the flag is absent)
+			setSide := b.Succs[0]
+			if cmp.Op == token.EQL {
+				setSide = b.Succs[1]
 			}
 			and, ok := cmp.X.(*ssa.BinOp)
 			if !ok || and.Op != token.AND {
@@ -1437,7 +1446,7 @@ func checkSetstatApplication(c *Ctx, withTargetsAndOrder bool) {
 				continue
 			}
 			// calls in the region of the true edge (up to the next flag test)
-			region := regionOf(fn, b.Succs[0])
+			region := regionOf(fn, setSide)
 			var descr []string
 			for rb := range region {
 				// stop at blocks that test another flag: those are dominated too only if nested; the ladder is sequential so they are not
